@@ -1,6 +1,6 @@
 (* C09 - printing then parsing returns the same term, atom or clause.
    Property theorems only; the proofs are in Serde/{Escape,Lexer,Parse,ParseTok,ParseConst,
-   ParseAtom,ParseToy,Clause,ClauseParse,ClauseRound,ClauseFinal}Proofs.v.
+   ParseAtom,ParseToy,ClauseTok,ClauseCell,Clause,ClauseParse,ClauseRound,ClauseFinal}Proofs.v.
    Models: Serde/Escape.v (ast/serde.go), Serde/Lexer.v (the lexer rules of
    parse/gen/Mangle.g4), Serde/Parse.v (rule `term` with the visitors of
    parse/parse.go and the constructor cases of functional.EvalApplyFn),
@@ -235,14 +235,12 @@ Qed.
    What may follow the final '.': nothing, or a character that is no NAME_CHAR.
    Fuel: that of parse_clause_text (what the correspondence check runs), 2 * length + 2, or more.
 
-   _partial - excluded from the proof (inside the model and the correspondence check):
-     * a body WITHOUT transform whose last premise is an equality / inequality with a COMPOUND
-       constant (pair, non-empty list / map / struct) on the right, `X = [1, 2].` ([end_ok] /
-       [last_end_ok] inside [clause_ok]): parse_print_const carries C08's follow condition, which
-       the final '.' does not meet; variables, names (" ."), numbers, floats, strings, byte
-       strings, times, durations, empty shapes and function applications in that place are proved;
-   outside the model: temporal annotations and operators (HeadTime, TemporalLiteral), the long
-   arrow. The full statement is this one with [last_end_ok] dropped from [clause_ok]. *)
+   _partial: what the model (hence the theorem) does not have - temporal annotations `@[..]` on
+   the head or a literal and the temporal operators (ast.Clause.HeadTime, ast.TemporalLiteral),
+   the long arrow U+27F8 for `:-`. Everything the clause type of Serde/Clause.v can express is
+   covered; in particular the text right before the final '.' may be an atom, a function
+   application, a variable (`X = Y.`: the lexer reads `Y.` + a non-NAME_CHAR as VARIABLE, '.'),
+   a number or float (`X = 1.`, `X = 1.5.`), a name (" ." of N53), any other constant. *)
 Theorem parse_print_clause_partial :
   forall (parse_float parse_time parse_dur : list Z -> option Z) (fmt_float fmt_time fmt_dur : Z -> list Z),
   (forall b, float_special b = false -> parse_float (format_float64 fmt_float b) = Some b) ->
@@ -264,8 +262,8 @@ Proof. exact parse_print_clause_lemma. Qed.
 Print Assumptions parse_print_clause_partial.
 
 (* the domain contains: negation, a comparison atom, nested function applications, a compound
-   constant, an inequality that ends the body with a name constant (N53), one that ends it with a
-   variable / a number, a three-stage transform (N50), a fact *)
+   constant, an inequality that ends the body with a name constant (N53), bodies that end with a
+   variable / a number / a list, a three-stage transform (N50), a fact *)
 Example parse_print_clause_nonvacuous :
   let c1 := Clause (CAtom (bs "p") [BVar (bs "X"); BConst (build (EList [ENum (-1); EStr (bs "a.b")]))])
               (Some [LAtom (CAtom (bs "q.r") [BVar (bs "X"); BConst (mk_number 3)]); LNeg (CAtom (bs "r") [BVar (bs "_")]);
@@ -280,6 +278,7 @@ Example parse_print_clause_nonvacuous :
   clause_ok c1 = true /\ clause_ok c2 = true /\ clause_ok (Clause (CAtom (bs "p") []) None []) = true /\
   clause_ok (Clause (CAtom (bs "p") [BVar (bs "X")]) (Some [LEq (BVar (bs "X")) (BVar (bs "Y"))]) []) = true /\
   clause_ok (Clause (CAtom (bs "p") [BVar (bs "X")]) (Some [LIneq (BVar (bs "X")) (BConst (mk_number (-5)))]) []) = true /\
+  clause_ok (Clause (CAtom (bs "p") [BVar (bs "X")]) (Some [LEq (BVar (bs "X")) (BConst (build (EList [ENum 1; ENum 2])))]) []) = true /\
   match parse_clause_text toy_parse_float (print_clause toy_float print_number print_number c1) with
   | ROk q [] => List.length (match pc_prem q with Some l => l | None => [] end) = 5%nat
   | _ => False
